@@ -150,6 +150,75 @@ def _grouped_by_sort(xv):
     return False
 
 
+def _vertex_parts(V: P):
+    """V = N * (E / I)[:, newaxis]  with  N = cross(..), E = energies[idx], I = einsum('ij,ij->i', N, normals[idx])
+    ->  {normals, scaling, energy, inv}  (terms), or None when the stored vertices are not of that shape."""
+    a = V.as_atom()
+    if a and a[0] == "obj":
+        V = a[3]
+    if len(V.n) != 1 or not V.d_is_one() if hasattr(V, "d_is_one") else len(V.n) != 1:
+        return None
+    (mono, coef), = V.n.items()
+    if coef != 1 or len(mono) != 2 or any(e != 1 for _, e in mono) or not (len(V.d) == 1 and V.d.get(()) == 1):
+        return None
+    cross = [at for at, _ in mono if at[0] == "call" and call_name(at) == "numpy.cross"]
+    col = [at for at, _ in mono if at[0] == "sub" and len(at[2]) == 2 and at[2][0].key().startswith("(slice None None None)")
+           and at[2][1].key() in ("numpy.newaxis", "None")]
+    if len(cross) != 1 or len(col) != 1:
+        return None
+    sf = col[0][1]
+    sa_ = sf.as_atom()
+    if sa_ and sa_[0] == "obj":
+        sf = sa_[3]
+    if len(sf.n) != 1 or len(sf.d) != 1:
+        return None
+    (mn, cn_), = sf.n.items()
+    (md, cd_), = sf.d.items()
+    if cn_ != 1 or cd_ != 1 or len(mn) != 1 or len(md) != 1 or mn[0][1] != 1 or md[0][1] != 1:
+        return None
+    return {"normals": P.atom(cross[0]), "scaling": sf, "energy": P.atom(mn[0][0]), "inv": P.atom(md[0][0])}
+
+
+def _structural_vertices(chk, w, deg, want1, want2):
+    """R19.1 / R19.2 for the vertex formula read off the stored term itself (no local of a particular name needed)."""
+    q = "WulffConstruction._extract_wulff_from_dual_mesh"
+    ev = w.ev(q)
+    st = [e for e in ev.events if e.kind == "store" and e.target.key() == "self.wulff_vertices"]
+    if not st:
+        raise AnalysisError("_extract_wulff_from_dual_mesh: store to self.wulff_vertices not found")
+    muts = [e for e in ev.events if e.kind in ("store", "aug") and e.target.as_atom() and e.target.as_atom()[0] == "sub"
+            and (e.target.as_atom()[1].as_atom() or ("",))[0] in ("obj", "local")]
+    parts = _vertex_parts(st[-1].value)
+    if parts is None:
+        raise AnalysisError(f"_extract_wulff_from_dual_mesh: the stored vertices are not N * (e_i / (N . n_i))[:, newaxis]: {str(st[-1].value)[:160]}")
+    degs = {k: deg.of(v) for k, v in parts.items()}
+    degs["vertices"] = deg.of(st[-1].value)
+    if want1:
+        chk.ob("R19.1", W, q, "normals of the dual triangles have degree -2", degs["normals"] == -2, found=str(degs))
+        chk.ob("R19.1", W, q, "the scaling factor e_i/(N.n_i) has degree +3", degs["scaling"] == 3, found=str(degs))
+        chk.ob("R19.1", W, q, "vertices have degree 1 in the energies", degs["vertices"] == 1, fingerprint="vertices-degree", found=str(degs))
+        patched = [f"line {e.lineno}: {str(e.target)[:50]} = {str(e.value)[:60]}" for e in muts
+                   if e.value is not None and deg.of(e.target.as_atom()[1]) not in (0, None) and deg.of(e.value) != deg.of(e.target.as_atom()[1])]
+        chk.ob("R19.1", W, q, "no intermediate that scales with the energies is overwritten with a value of "
+               "another degree (an absolute tolerance, a clamp to a constant)", not patched, fingerprint="no-absolute-patch", found=patched[:2])
+        chk.ob("R19.1", W, q, "those vertices are what the object exposes", True)
+    if want2:
+        S = "self.dual_hull.simplices"
+        A, B, C = (f"numpy.rollaxis(self.facet_dual_vectors[{S}], 1)[{k}]" for k in range(3))
+        chk.ob("R19.2", W, q, "simplices are those of the dual hull", S in parts["normals"].key(), found=str(parts["normals"])[:120])
+        chk.ob("R19.2", W, q, "N = (b - a) x (c - a) over the three dual points of each simplex",
+               parts["normals"].key() == f"numpy.cross(-{A} + {B}, -{A} + {C})", found=str(parts["normals"])[:200])
+        ea, ia = parts["energy"].as_atom(), parts["inv"].as_atom()
+        idx = ea[2][0] if ea and ea[0] == "sub" and len(ea[2]) == 1 else None
+        ix = idx.as_atom() if idx is not None else None
+        ok_i = bool(ix and ix[0] == "sub" and ix[1].key() == S and len(ix[2]) == 2 and ix[2][1].const_value() in (0, 1, 2))
+        chk.ob("R19.2", W, q, "the facet i used for scaling is a vertex of that same simplex", ok_i, found=str(idx))
+        ok_s = bool(idx is not None and ea[1].key() == "self.facet_energies" and ia and call_name(ia) == "numpy.einsum" and len(ia[2]) == 3
+                    and ia[2][0].key() == "'ij,ij->i'" and {ia[2][1].key(), ia[2][2].key()} == {parts["normals"].key(), f"self.facet_normals[{idx}]"})
+        chk.ob("R19.2", W, q, "scaling = e_i / (N . n_i) with normal and energy of the same facet i", ok_s,
+               found=str({k: str(parts[k])[:120] for k in ("energy", "inv")}))
+
+
 def run(chk):
     repo = chk.repo
     w = repo.module(W)
@@ -181,6 +250,10 @@ def run(chk):
         chk.ob("R19.1", W, "WulffConstruction._populate_duals", "dual vectors have degree -1", d_dv == -1, found=f"{dv}: {d_dv}")
         order = ["a", "b", "c", "normals", "corresponding_facet_normals", "corresponding_facet_energies", "inv_factors", "scaling_factors", "vertices"]
         degs = {}
+        structural = any(defs.get(nm) is None for nm in order)
+        if structural:
+            _structural_vertices(chk, w, deg, True, False)
+            order = []
         for nm in order:
             v = defs.get(nm)
             if v is None:
@@ -189,30 +262,31 @@ def run(chk):
             for k in xv.defs:
                 if k[1] == nm:
                     deg.base[P.atom(k).key()] = degs[nm]
-        chk.ob("R19.1", W, "WulffConstruction._extract_wulff_from_dual_mesh", "normals of the dual triangles have degree -2", degs["normals"] == -2,
-               found=str(degs))
-        chk.ob("R19.1", W, "WulffConstruction._extract_wulff_from_dual_mesh", "the scaling factor e_i/(N.n_i) has degree +3", degs["scaling_factors"] == 3,
-               found=str(degs))
-        chk.ob("R19.1", W, "WulffConstruction._extract_wulff_from_dual_mesh", "vertices have degree 1 in the energies", degs["vertices"] == 1,
-               fingerprint="vertices-degree", found=str(degs))
-        # a quantity that scales with the energies is not patched with an absolute number afterwards (a floor of 1e-6 on N.n, which goes like
-        # 1/e^2, changes every vertex once the energies are of order 1e3)
-        patched = []
-        for e in xv.events:
-            if e.kind not in ("store", "aug") or e.value is None:
-                continue
-            t = e.target.as_atom()
-            base = t[1].as_atom() if t and t[0] == "sub" else None
-            nm = base[1] if base and base[0] in ("local", "obj") and isinstance(base[1], str) else None
-            if nm in degs and degs[nm] not in (0, None):
-                dv_ = deg.of(e.value)
-                if dv_ != degs[nm]:
-                    patched.append(f"line {e.lineno}: {nm} (degree {degs[nm]}) [...] = {str(e.value)[:60]} (degree {dv_})")
-        chk.ob("R19.1", W, "WulffConstruction._extract_wulff_from_dual_mesh", "no intermediate that scales with the energies is overwritten with a value of "
-               "another degree (an absolute tolerance, a clamp to a constant)", not patched, fingerprint="no-absolute-patch", found=patched[:2])
-        sx = {e.target.key(): e.value.key() for e in xv.events if e.kind == "store"}
-        chk.ob("R19.1", W, "WulffConstruction._extract_wulff_from_dual_mesh", "those vertices are what the object exposes",
-               sx.get("self.wulff_vertices") == "$vertices", found=sx.get("self.wulff_vertices"))
+        if not structural:
+            chk.ob("R19.1", W, "WulffConstruction._extract_wulff_from_dual_mesh", "normals of the dual triangles have degree -2", degs["normals"] == -2,
+                   found=str(degs))
+            chk.ob("R19.1", W, "WulffConstruction._extract_wulff_from_dual_mesh", "the scaling factor e_i/(N.n_i) has degree +3", degs["scaling_factors"] == 3,
+                   found=str(degs))
+            chk.ob("R19.1", W, "WulffConstruction._extract_wulff_from_dual_mesh", "vertices have degree 1 in the energies", degs["vertices"] == 1,
+                   fingerprint="vertices-degree", found=str(degs))
+            # a quantity that scales with the energies is not patched with an absolute number afterwards (a floor of 1e-6 on N.n, which goes like
+            # 1/e^2, changes every vertex once the energies are of order 1e3)
+            patched = []
+            for e in xv.events:
+                if e.kind not in ("store", "aug") or e.value is None:
+                    continue
+                t = e.target.as_atom()
+                base = t[1].as_atom() if t and t[0] == "sub" else None
+                nm = base[1] if base and base[0] in ("local", "obj") and isinstance(base[1], str) else None
+                if nm in degs and degs[nm] not in (0, None):
+                    dv_ = deg.of(e.value)
+                    if dv_ != degs[nm]:
+                        patched.append(f"line {e.lineno}: {nm} (degree {degs[nm]}) [...] = {str(e.value)[:60]} (degree {dv_})")
+            chk.ob("R19.1", W, "WulffConstruction._extract_wulff_from_dual_mesh", "no intermediate that scales with the energies is overwritten with a value of "
+                   "another degree (an absolute tolerance, a clamp to a constant)", not patched, fingerprint="no-absolute-patch", found=patched[:2])
+            sx = {e.target.key(): e.value.key() for e in xv.events if e.kind == "store"}
+            chk.ob("R19.1", W, "WulffConstruction._extract_wulff_from_dual_mesh", "those vertices are what the object exposes",
+                   sx.get("self.wulff_vertices") == "$vertices", found=sx.get("self.wulff_vertices"))
     if chk.want("R19.2"):
         FN = P.atom(("attr", P.name("self"), "facet_normals"))
         FE = P.atom(("attr", P.name("self"), "facet_energies"))
@@ -222,24 +296,29 @@ def run(chk):
         want = FN / nax
         chk.ob("R19.2", W, "WulffConstruction._populate_duals", "dual point of the plane n.x = e is n / e (n e / |n e|^2 is that only for unit normals; the property "
                "quantifies over any set of normals)", dv == want, fingerprint="dual-point", expected=str(want), found=str(dv))
-        sim = defs.get("simplices")
-        chk.ob("R19.2", W, "WulffConstruction._extract_wulff_from_dual_mesh", "simplices are those of the dual hull", sim is not None and sim.key() == "self.dual_hull.simplices",
-               found=str(sim))
-        abc_ok = all(defs.get(nm) is not None and defs[nm].key() == f"numpy.rollaxis(self.facet_dual_vectors[$simplices], 1)[{k}]" for k, nm in enumerate("abc"))
-        n = defs.get("normals")
-        cross_ok = n is not None and n.key() in ("numpy.cross(-$a + $b, -$a + $c)",)
-        chk.ob("R19.2", W, "WulffConstruction._extract_wulff_from_dual_mesh", "N = (b - a) x (c - a) over the three dual points of each simplex", abc_ok and cross_ok,
-               found=str(n))
-        fi = defs.get("facet_indices")
-        ok_i = fi is not None and fi.as_atom() and fi.as_atom()[0] == "sub" and fi.as_atom()[1].key() == "$simplices" and len(fi.as_atom()[2]) == 2 \
-            and fi.as_atom()[2][1].const_value() in (0, 1, 2)
-        chk.ob("R19.2", W, "WulffConstruction._extract_wulff_from_dual_mesh", "the facet i used for scaling is a vertex of that same simplex", bool(ok_i), found=str(fi))
-        ok_s = defs["corresponding_facet_normals"].key() == "self.facet_normals[$facet_indices]" and \
-            defs["corresponding_facet_energies"].key() == "self.facet_energies[$facet_indices]" and \
-            defs["inv_factors"].key() == "numpy.einsum('ij,ij->i', $normals, $corresponding_facet_normals)" and \
-            defs["scaling_factors"] == P.atom(("local", "corresponding_facet_energies", 0)) / P.atom(("local", "inv_factors", 0))
-        chk.ob("R19.2", W, "WulffConstruction._extract_wulff_from_dual_mesh", "scaling = e_i / (N . n_i) with normal and energy of the same facet i", ok_s,
-               found=str({k: str(defs[k]) for k in ("inv_factors", "scaling_factors")}))
+        named = all(defs.get(nm) is not None for nm in ("a", "b", "c", "normals", "corresponding_facet_normals", "corresponding_facet_energies",
+                                                         "inv_factors", "scaling_factors", "vertices", "facet_indices", "simplices"))
+        if not named:
+            _structural_vertices(chk, w, Deg({}), False, True)
+        if named:
+            sim = defs.get("simplices")
+            chk.ob("R19.2", W, "WulffConstruction._extract_wulff_from_dual_mesh", "simplices are those of the dual hull", sim is not None and sim.key() == "self.dual_hull.simplices",
+                   found=str(sim))
+            abc_ok = all(defs.get(nm) is not None and defs[nm].key() == f"numpy.rollaxis(self.facet_dual_vectors[$simplices], 1)[{k}]" for k, nm in enumerate("abc"))
+            n = defs.get("normals")
+            cross_ok = n is not None and n.key() in ("numpy.cross(-$a + $b, -$a + $c)",)
+            chk.ob("R19.2", W, "WulffConstruction._extract_wulff_from_dual_mesh", "N = (b - a) x (c - a) over the three dual points of each simplex", abc_ok and cross_ok,
+                   found=str(n))
+            fi = defs.get("facet_indices")
+            ok_i = fi is not None and fi.as_atom() and fi.as_atom()[0] == "sub" and fi.as_atom()[1].key() == "$simplices" and len(fi.as_atom()[2]) == 2 \
+                and fi.as_atom()[2][1].const_value() in (0, 1, 2)
+            chk.ob("R19.2", W, "WulffConstruction._extract_wulff_from_dual_mesh", "the facet i used for scaling is a vertex of that same simplex", bool(ok_i), found=str(fi))
+            ok_s = defs["corresponding_facet_normals"].key() == "self.facet_normals[$facet_indices]" and \
+                defs["corresponding_facet_energies"].key() == "self.facet_energies[$facet_indices]" and \
+                defs["inv_factors"].key() == "numpy.einsum('ij,ij->i', $normals, $corresponding_facet_normals)" and \
+                defs["scaling_factors"] == P.atom(("local", "corresponding_facet_energies", 0)) / P.atom(("local", "inv_factors", 0))
+            chk.ob("R19.2", W, "WulffConstruction._extract_wulff_from_dual_mesh", "scaling = e_i / (N . n_i) with normal and energy of the same facet i", ok_s,
+                   found=str({k: str(defs[k]) for k in ("inv_factors", "scaling_factors")}))
         app = [e for e in xv.events if e.kind == "call" and e.target is not None and e.target.key().endswith(".append") and len(e.loops) == 2]
         okm = False
         if len(app) == 1:
@@ -261,9 +340,13 @@ def run(chk):
             fa = fdefs[0].as_atom()
             if fa and fa[0] == "obj":
                 fa = fa[3].as_atom()
-            per_point = bool(fa and fa[0] == "comp" and fa[1] == "ListComp" and len(fa[3]) == 1 and fa[3][0][0] == "range" and not fa[3][0][2]
+            per_point = bool(fa and fa[0] == "comp" and fa[1] == "ListComp" and len(fa[3]) == 1 and fa[3][0][0] in ("range", "iter") and not fa[3][0][2]
                              and any(w_ in fa[3][0][1].key() for w_ in ("facet_dual_vectors", "facet_normals", "facet_energies")))
             one_per = (per_point or not app) and len(fdefs) == 1 and fst[-1].key() == fdefs[0].key()
+        elif fst and not fdefs and not app and okm:
+            # grouped by a stable sort with one group per dual point (bincount minlength, checked above), stored as they come, none dropped
+            fa = fst[-1].as_atom()
+            one_per = bool(fa and fa[0] == "comp" and fa[1] == "ListComp" and len(fa[3]) == 1 and not fa[3][0][2] and "numpy.split(" in fa[3][0][1].key())
         chk.ob("R19.2", W, "WulffConstruction._extract_wulff_from_dual_mesh", "the facet lists are stored one per dual point, in the order of the dual "
                "points (position i <-> input facet i)", one_per, fingerprint="facets-per-point", found=[str(v)[:100] for v in fst[-1:]])
     if chk.want("R19.3"):
@@ -286,7 +369,18 @@ def run(chk):
             body = lam[0][2].as_atom()
             if body and call_name(body) == "arctan2":
                 y, x = body[2]
-                okl = y.key().endswith(", 1]") and x.key().endswith(", 0]")
+
+                def row_col(t):
+                    """(row term key, column) of  D[i, c]  or  D[i][c]"""
+                    ta = t.as_atom()
+                    if ta and ta[0] == "sub" and len(ta[2]) == 2 and ta[2][1].const_value() is not None:
+                        return (P.atom(("sub", ta[1], (ta[2][0],))).key(), int(ta[2][1].const_value()))
+                    if ta and ta[0] == "sub" and len(ta[2]) == 1 and ta[2][0].const_value() is not None and ta[1].as_atom() \
+                            and ta[1].as_atom()[0] == "sub" and len(ta[1].as_atom()[2]) == 1:
+                        return (ta[1].key(), int(ta[2][0].const_value()))
+                    return None
+                ry, rx = row_col(y), row_col(x)
+                okl = bool(ry and rx and ry[0] == rx[0] and ry[1] == 1 and rx[1] == 0)
         chk.ob("R19.3", W, "winding_order_ccw", "points are sorted by ascending atan2(v, u) about the first point", okl and "reverse" not in rk and "sorted(" in rk,
                found=rk[:200])
         others = [r for r in wv.returns[:-1] if r.value is not None and r.value.key() != rk]
